@@ -48,6 +48,7 @@ class Ctx:
         self.sample = None
         self.trace = []
         self.profile = "clean"
+        self.measures = {}
         self.cfg = {}
         self._dirn = 0
 
@@ -57,6 +58,12 @@ class Ctx:
     def log(self, *ev):
         self.events.append(ev)
         self.steps += 1
+
+    def measure(self, name, value):
+        """records a value whose number of DISTINCT occurrences over the whole check is reported in the evidence (e.g.
+        thread schedules, effect-group application orders, fault positions)"""
+        h = int.from_bytes(hashlib.blake2b(repr(value).encode(), digest_size=8).digest(), "big")
+        self.measures.setdefault(name, set()).add(h)
 
     def note(self, text):
         if len(self.trace) < 80:
@@ -197,7 +204,7 @@ def execute(prop, seed, tier="quick", replay=None, want_sample=False):
         if v:
             ctx.faults[k] += v
     res.update(digest=ctx.digest(), probes=dict(ctx.probes), faults=dict(ctx.faults), steps=ctx.steps,
-               nontrivial=bool(ctx.nontrivial), profile=ctx.profile)
+               nontrivial=bool(ctx.nontrivial), profile=ctx.profile, measures=ctx.measures)
     if want_sample or res["outcome"] != "ok":
         res["sample"] = ctx.sample
         res["trace"] = ctx.trace
@@ -214,7 +221,7 @@ def run_chunk(prop_id, seeds, tier, collect_digests=False, nsamples=2):
     prop = load_prop(prop_id)
     agg = {"runs": 0, "ok": 0, "skip": 0, "probes": Counter(), "faults": Counter(), "steps": 0,
            "nontrivial": 0, "nt_digests": set(), "all_digests": set(), "violations": [], "harness_errors": [],
-           "samples": [], "digests": [], "profiles": Counter()}
+           "samples": [], "digests": [], "profiles": Counter(), "measures": {}}
     junk_level = int(os.environ.get("VERIF_JUNK", "0") or 0)
     junk = []
     for seed in seeds:
@@ -229,6 +236,8 @@ def run_chunk(prop_id, seeds, tier, collect_digests=False, nsamples=2):
         agg["faults"].update(r["faults"])
         agg["steps"] += r["steps"]
         agg["profiles"][r["profile"]] += 1
+        for mk, mv in (r.get("measures") or {}).items():
+            agg["measures"].setdefault(mk, set()).update(mv)
         d = int(r["digest"], 16)
         agg["all_digests"].add(d)
         if r["nontrivial"]:
@@ -266,6 +275,8 @@ def merge(a, b):
         a[k] += b[k]
     for k in ("probes", "faults", "profiles"):
         a[k].update(b[k])
+    for mk, mv in (b.get("measures") or {}).items():
+        a.setdefault("measures", {}).setdefault(mk, set()).update(mv)
     a["nt_digests"] |= b["nt_digests"]
     a["all_digests"] |= b["all_digests"]
     for v in b["violations"]:
@@ -281,7 +292,7 @@ def merge(a, b):
 def empty_agg():
     return {"runs": 0, "ok": 0, "skip": 0, "probes": Counter(), "faults": Counter(), "steps": 0,
             "nontrivial": 0, "nt_digests": set(), "all_digests": set(), "violations": [], "harness_errors": [],
-            "samples": [], "digests": [], "profiles": Counter(), "timeouts": 0, "dead_children": 0}
+            "samples": [], "digests": [], "profiles": Counter(), "timeouts": 0, "dead_children": 0, "measures": {}}
 
 
 def run_chunks(prop_id, chunks, tier, workers, deadline, chunk_timeout=300.0, collect_digests=False):
